@@ -18,6 +18,7 @@ structure DState where
   feeds : List (String × List FeedOp) := []      -- per watched instance: records not yet drained (oldest first)
   patterns : List Bytes := []                    -- patterns of the second (filtered) watcher
   sl : Skiplist.SL := Skiplist.makeSkiplist      -- the pointer-level skiplist of the `sl` ops
+  slz : Skiplist.PZSet := Skiplist.PZSet.empty   -- the pointer-level sorted set of the `slz` ops
 
 def DState.sv (d : DState) : Server := ((d.inst.find? (·.1 == d.cur)).map (·.2)).getD {}
 def DState.putSv (d : DState) (sv : Server) : DState :=
@@ -42,6 +43,7 @@ def step (d : DState) (line : String) : DState × String :=
   | "ck" :: _ | "dk" :: _ | "ev" :: _ => (d, Driver.codecOp toks)
   | "frag" :: rest => (d, Driver.fragOp rest)
   | "sl" :: rest => let (sl, out) := Driver.slOp d.sl rest; ({ d with sl := sl }, out)
+  | "slz" :: rest => let (p, out) := Driver.slzOp d.slz rest; ({ d with slz := p }, out)
   | "pev" :: rest => let (p, out) := Driver.protoOp d.proto rest; ({ d with proto := p }, out)
   | "bev" :: rest => let (b, out) := Driver.blockOp d.block rest; ({ d with block := b }, out)
   | "gev" :: rest => let (g, out) := Driver.gateOp d.gate rest; ({ d with gate := g }, out)
